@@ -26,6 +26,7 @@ EXPLANATION = ("a: in search_recursive_with_execution (DFS) every assignment of 
                "d: every operator token condition_to_goal_pattern can emit is read back by parse_goal_pattern (both copies) to the same "
                "Operator, and each value printer arm is read back to the same Value variant. e: find_candidate_rules falls back to the "
                "linear scan when the index proposes nothing.")
+EXPLANATION += " e (added): from every point where DFS records a solution, assuming depth > 0, rollback_undo_frame is unreachable before commit_undo_frame (a sub-goal's derivation stays in the facts for the rule above it; alternatives are rolled back at the root only)."
 FLOORS = {"true_returns": 4, "emitted_tokens": 12, "parsers": 2}
 
 DFS = "backward::search::DepthFirstSearch"
